@@ -175,6 +175,9 @@ func (w *world) step(maxWait time.Duration) {
 	synctest.Wait()
 	if w.ys != nil && w.ys.on {
 		w.res.Probes["ysched_resumes"] += w.ys.drain(w.ysRng)
+		if w.ys.stalls > 0 {
+			w.res.Faults["goroutine_stall"] = w.ys.stalls
+		}
 	}
 	w.net.route()
 	n := w.net.deliverDue()
